@@ -134,6 +134,23 @@ Section Lines.
     - reflexivity.
   Qed.
 
+  (* no line end where one is required: OneOrMore(Suppress(LineEnd)) fails *)
+  Lemma evals_eol_fail full m cp x d r :
+    nth_error g m = Some (mkNode (KMany true) [sl] true WS [c] cp []) ->
+    std_pre x = d :: r -> N.eqb d NL = false ->
+    evals g full m true (At x) PFail.
+  Proof.
+    intros Hm Hx Hd.
+    assert (Hs : forall z, std_pre z = d :: r -> evals g full sl true (At z) PFail).
+    { intros z Hz. pose proof (evals_sl full z) as Hs. unfold line_res in Hs. rewrite Hz, Hd in Hs. exact Hs. }
+    eapply evals_node_fail; [exact Hm| |].
+    - instantiate (1 := if cp then At (std_pre x) else At x).
+      destruct cp; cbn; [|reflexivity].
+      apply (pre_to_std g full c WS); [exact Hc|repeat split|reflexivity].
+    - eapply (impls_many_none g full _ true); [reflexivity|reflexivity|].
+      destruct cp; apply Hs; [rewrite (std_pre_idem g c WS Hc)|]; exact Hx.
+  Qed.
+
   (* the end of a statement: a line end and further blank lines before an admissible
      continuation, or blanks / a comment up to the end of the input *)
   Definition stmt_end (E k : pstr) : Prop :=
@@ -275,6 +292,79 @@ Section Doc.
       + cbn [flat_map]. rewrite app_assoc. apply IH; assumption.
   Qed.
 
+  (* ---- the header: StringStart, blank / comment lines ---- *)
+  Lemma header_evals pls B :
+    Forall blank_line pls ->
+    (exists d r, std_pre B = d :: r /\ N.eqb d NL = false) ->
+    let D := concat pls ++ B in
+    exists pz, (pz = At B \/ pz = At (std_pre B)) /\ evals g D zm true (At (std_pre D)) (POk pz []).
+  Proof.
+    intros Hpls HBne D.
+    assert (HcontB : cont_ok B).
+    { unfold PegDoc.cont_ok. destruct HBne as (d & r & E & Hd). rewrite E. exact Hd. }
+    assert (HafterB : after B = At B).
+    { unfold PegDoc.after. destruct HBne as (d & r & E & Hd). rewrite E. reflexivity. }
+    destruct pls as [|l ls].
+    - exists (At (std_pre B)). split; [right; reflexivity|].
+      assert (ED : D = B) by reflexivity. rewrite ED.
+      assert (Hs : evals g D sl true (At (std_pre B)) PFail).
+      { pose proof (evals_sl g c sl le WS Hc Hsl Hle D (std_pre B)) as Hs. unfold line_res in Hs.
+        rewrite (std_pre_idem g c WS Hc) in Hs. destruct HBne as (d & r & E & Hd).
+        rewrite E in Hs at 2. rewrite Hd in Hs. exact Hs. }
+      eapply evals_eq.
+      + eapply evals_node; [exact Hzm| |].
+        * cbn. apply (pre_to_std g D c WS); [exact Hc|repeat split|apply (std_pre_idem g c WS Hc)].
+        * rewrite ED in Hs. eapply (impls_many_none g D _ false); [reflexivity|reflexivity|exact Hs].
+      + reflexivity.
+    - exists (At B). split; [left; reflexivity|].
+      inversion Hpls as [|? ? Hl Hls]; subst.
+      assert (ED : D = l ++ concat ls ++ B) by (unfold D; cbn [concat]; rewrite <- !app_assoc; reflexivity).
+      assert (EpD : std_pre D = NL :: concat ls ++ B) by (rewrite ED; apply Hl).
+      assert (Hs : evals g D sl true (At (std_pre D)) (POk (At (concat ls ++ B)) [])).
+      { pose proof (evals_sl g c sl le WS Hc Hsl Hle D (std_pre D)) as Hs. unfold line_res in Hs.
+        rewrite (std_pre_idem g c WS Hc) in Hs. rewrite EpD in Hs at 2. cbn in Hs. exact Hs. }
+      eapply evals_eq.
+      + eapply evals_node; [exact Hzm| |].
+        * cbn. apply (pre_to_std g D c WS); [exact Hc|repeat split|apply (std_pre_idem g c WS Hc)].
+        * eapply impls_many; [reflexivity|reflexivity|exact Hs|].
+          cbn [nign]. apply (loops_lines g c sl le WS Hc Hsl Hle D ls B [] Hls HcontB).
+      + rewrite <- HafterB. reflexivity.
+  Qed.
+
+  (* a document whose first statement is refused is refused *)
+  Theorem document_reject_first pls b y :
+    Forall blank_line pls -> blanks WS b -> stmt_start y ->
+    (forall full b', blanks WS b' -> evals g full st true (At (b' ++ y)) PFail) ->
+    let D := concat pls ++ b ++ y in
+    evals g D root true (At D) PFail.
+  Proof.
+    intros Hpls Hb Hy Hfail D.
+    assert (HB : std_pre (b ++ y) = y).
+    { pose proof (std_pre_start b y [] Hb Hy) as H. rewrite !app_nil_r in H. exact H. }
+    assert (HBne : exists d r, std_pre (b ++ y) = d :: r /\ N.eqb d NL = false).
+    { rewrite HB. destruct y as [|d y]; [destruct Hy|]. exists d, y. split; [reflexivity|apply Hy]. }
+    destruct (header_evals pls (b ++ y) Hpls HBne) as (pz & Hpz & Hzm').
+    assert (Hom' : evals g D om true pz PFail).
+    { eapply evals_node_fail; [exact Hom| |].
+      - instantiate (1 := if omcp then At y else pz).
+        destruct omcp; cbn; [|reflexivity].
+        destruct Hpz as [-> | ->]; (apply (pre_to_std g D c WS); [exact Hc|repeat split|]).
+        + exact HB.
+        + rewrite HB. destruct y as [|d y]; [destruct Hy|]. destruct Hy as (Hw & Hh & _).
+          apply (std_pre_stop WS); assumption.
+      - eapply (impls_many_none g D _ true); [reflexivity|reflexivity|].
+        destruct omcp.
+        + apply (Hfail D []). reflexivity.
+        + destruct Hpz as [-> | ->]; [apply Hfail; exact Hb|rewrite HB; apply (Hfail D []); reflexivity]. }
+    eapply evals_node_fail; [exact Hroot| |].
+    - cbn. apply (pre_to_std g D c WS); [exact Hc|repeat split|reflexivity].
+    - eapply impls_and; [reflexivity|reflexivity| |].
+      + eapply evals_node_ok; [exact Hss|cbn; reflexivity|].
+        apply impls_string_start; [reflexivity|].
+        apply (pre_to_std g D c WS); [exact Hc|repeat split|reflexivity].
+      + cbn. eapply seqs_cons; [exact Hzm'|]. apply seqs_fail. exact Hom'.
+  Qed.
+
   (* ---- the document theorem ---- *)
   Theorem document_concat_items pls its tl :
     Forall blank_line pls -> items_ok its tl -> its <> [] -> std_pre tl = [] ->
@@ -294,34 +384,7 @@ Section Doc.
     assert (HcontB : cont_ok B).
     { unfold PegDoc.cont_ok. destruct HBne as (d & r & E & Hd). rewrite E. exact Hd. }
     assert (HafterB : after B = At B) by (apply after_items; assumption).
-    (* position after the header: the first statement, possibly with its leading blanks *)
-    assert (Hhead : exists pz, (pz = At B \/ pz = At (std_pre B)) /\
-              evals g D zm true (At (std_pre D)) (POk pz [])).
-    { destruct pls as [|l ls].
-      - exists (At (std_pre B)). split; [right; reflexivity|].
-        assert (ED : D = B) by reflexivity. rewrite ED.
-        assert (Hs : evals g D sl true (At (std_pre B)) PFail).
-        { pose proof (evals_sl g c sl le WS Hc Hsl Hle D (std_pre B)) as Hs. unfold line_res in Hs.
-          rewrite (std_pre_idem g c WS Hc) in Hs. destruct HBne as (d & r & E & Hd).
-          rewrite E in Hs at 2. rewrite Hd in Hs. exact Hs. }
-        eapply evals_eq.
-        + eapply evals_node; [exact Hzm| |].
-          * cbn. apply (pre_to_std g D c WS); [exact Hc|repeat split|apply (std_pre_idem g c WS Hc)].
-          * rewrite ED in Hs. eapply (impls_many_none g D _ false); [reflexivity|reflexivity|exact Hs].
-        + reflexivity.
-      - exists (At B). split; [left; reflexivity|].
-        inversion Hpls as [|? ? Hl Hls]; subst.
-        assert (ED : D = l ++ concat ls ++ B) by (unfold D, B; cbn [concat]; rewrite <- !app_assoc; reflexivity).
-        assert (EpD : std_pre D = NL :: concat ls ++ B) by (rewrite ED; apply Hl).
-        assert (Hs : evals g D sl true (At (std_pre D)) (POk (At (concat ls ++ B)) [])).
-        { pose proof (evals_sl g c sl le WS Hc Hsl Hle D (std_pre D)) as Hs. unfold line_res in Hs.
-          rewrite (std_pre_idem g c WS Hc) in Hs. rewrite EpD in Hs at 2. cbn in Hs. exact Hs. }
-        eapply evals_eq.
-        + eapply evals_node; [exact Hzm| |].
-          * cbn. apply (pre_to_std g D c WS); [exact Hc|repeat split|apply (std_pre_idem g c WS Hc)].
-          * eapply impls_many; [reflexivity|reflexivity|exact Hs|].
-            cbn [nign]. apply (loops_lines g c sl le WS Hc Hsl Hle D ls B [] Hls HcontB).
-        + rewrite <- HafterB. reflexivity. }
+    pose proof (header_evals pls B Hpls HBne) as Hhead. cbn zeta in Hhead. fold D in Hhead.
     destruct Hhead as (pz & Hpz & Hzm').
     (* OneOrMore(stmt) from pz *)
     assert (Hfirst : forall pz', (pz' = At B \/ pz' = At (std_pre B)) ->
